@@ -1,6 +1,7 @@
 (* Properties/C01.v — Acknowledged object writes are read back exactly (M-META, Model/Meta.v).
    Statements + exact-lemma proofs + Print Assumptions only. *)
 From Verif Require Import Bytes Codec Md5 Meta MetaBasics MetaWitness.
+From Verif Require Import MetaRows1 MetaRows2 MetaRows3 MetaRows4 MetaRows5 MetaRows6 MetaRows7 MetaRows8 MetaRows9 MetaRows10.
 
 (* every reachable state satisfies the database's unique indexes: at most one completed is_latest row per
    (bucket,key), version ids unique per key, part sequence numbers unique per object — for ALL histories *)
@@ -33,4 +34,146 @@ Example C01_ex_append_after_multipart : exists lm,
   nth_error (snd (run [OMb wb; OCmu wb wk; OUp wb wk 1 1 cA; OUp wb wk 1 2 cB; OCpl wb wk 1 None CRNone;
                        OApp wb wk cC (Some 16%Z); OGet wb wk VRNone])) 6 =
   Some (RObj VNull (mk_multi [cA; cB; cC]) 24 lm None (Some (cA ++ cB ++ cC))).
+Proof. eexists. vm_compute. reflexivity. Qed.
+
+(* ================= row-level theorems (Proofs/MetaRows1..9) ================= *)
+
+(* INVARIANT: row ids are unique and below the id counter, and the unique indexes hold; every operation
+   preserves it from ANY state … *)
+Theorem C01_step_preserves_row_invariant : forall i hist s o,
+  (NoDup (map o_id (objs s)) /\ (forall x, In x (objs s) -> (o_id x < next_id s)%N)) /\
+  (unique_ok s = true /\ parts_unique_ok s = true) ->
+  (NoDup (map o_id (objs (fst (step i hist s o)))) /\
+   (forall x, In x (objs (fst (step i hist s o))) -> (o_id x < next_id (fst (step i hist s o)))%N)) /\
+  (unique_ok (fst (step i hist s o)) = true /\ parts_unique_ok (fst (step i hist s o)) = true).
+Proof. exact step_inv1. Qed.
+Print Assumptions C01_step_preserves_row_invariant.
+
+(* … hence it holds after every history *)
+Theorem C01_reachable_row_invariant : forall ops,
+  (NoDup (map o_id (objs (fst (run ops)))) /\
+   (forall x, In x (objs (fst (run ops))) -> (o_id x < next_id (fst (run ops)))%N)) /\
+  (unique_ok (fst (run ops)) = true /\ parts_unique_ok (fst (run ops)) = true).
+Proof. exact run_inv1. Qed.
+Print Assumptions C01_reachable_row_invariant.
+
+(* READ-YOUR-WRITE, PutObject, from ANY state: an acknowledged put (version id v, ETag e) is what HEAD by key
+   and HEAD by that version id return, with the MD5 ETag and the size of the body *)
+Theorem C01_put_read_your_write : forall i hist s b k c cr s' v e,
+  step i hist s (OPut b k c cr) = (s', RPut v e) ->
+  e = mk_md5 c /\ exists lm,
+  op_head s' b k None = RObj v e (zlen c) lm None None /\
+  op_head s' b k (Some v) = RObj v e (zlen c) lm None None.
+Proof. exact put_read_your_write. Qed.
+Print Assumptions C01_put_read_your_write.
+
+Theorem C01_put_read_your_write_history : forall ops b k c cr s' rs v e,
+  run (ops ++ [OPut b k c cr]) = (s', rs ++ [RPut v e]) ->
+  e = mk_md5 c /\ exists lm,
+  op_head s' b k None = RObj v e (zlen c) lm None None /\
+  op_head s' b k (Some v) = RObj v e (zlen c) lm None None.
+Proof. exact run_put_read_your_write. Qed.
+Print Assumptions C01_put_read_your_write_history.
+
+(* CopyObject: the destination reads back (by key and by the returned version id) with the ETag, size and
+   content type that HEAD of the source reported before the copy *)
+Theorem C01_copy_read_your_write : forall i hist s sb sk vr db dk s' v e,
+  step i hist s (OCp sb sk vr db dk) = (s', RPut v e) ->
+  exists sv sz slm ct lm,
+  op_head s sb sk (resolve_vref vr) = RObj sv e sz slm ct None /\
+  op_head s' db dk None = RObj v e sz lm ct None /\
+  op_head s' db dk (Some v) = RObj v e sz lm ct None.
+Proof. exact copy_read_your_write. Qed.
+Print Assumptions C01_copy_read_your_write.
+
+Theorem C01_copy_read_your_write_history : forall ops sb sk vr db dk s' rs v e,
+  run (ops ++ [OCp sb sk vr db dk]) = (s', rs ++ [RPut v e]) ->
+  exists sv sz slm ct lm,
+  op_head (fst (run ops)) sb sk (resolve_vref vr) = RObj sv e sz slm ct None /\
+  op_head s' db dk None = RObj v e sz lm ct None /\
+  op_head s' db dk (Some v) = RObj v e sz lm ct None.
+Proof. exact run_copy_read_your_write. Qed.
+Print Assumptions C01_copy_read_your_write_history.
+
+(* AppendObject: the acknowledged ETag and total size are what HEAD by key returns *)
+Theorem C01_append_read_your_write : forall i hist s b k c off s' e sz,
+  step i hist s (OApp b k c off) = (s', RAppend e sz) ->
+  exists v lm ct, op_head s' b k None = RObj v e sz lm ct None.
+Proof. exact append_read_your_write. Qed.
+Print Assumptions C01_append_read_your_write.
+
+Theorem C01_append_read_your_write_history : forall ops b k c off s' rs e sz,
+  run (ops ++ [OApp b k c off]) = (s', rs ++ [RAppend e sz]) ->
+  exists v lm ct, op_head s' b k None = RObj v e sz lm ct None.
+Proof. exact run_append_read_your_write. Qed.
+Print Assumptions C01_append_read_your_write_history.
+
+(* CompleteMultipartUpload, from any state with unique row ids: the acknowledged version id and multipart ETag
+   are what HEAD by key and HEAD by that version id return *)
+Theorem C01_complete_read_your_write : forall i hist s b k u m cr s' v e,
+  NoDup (map o_id (objs s)) -> (forall x, In x (objs s) -> (o_id x < next_id s)%N) ->
+  step i hist s (OCpl b k u m cr) = (s', RPut v e) ->
+  exists sz lm ct,
+  op_head s' b k None = RObj v e sz lm ct None /\ op_head s' b k (Some v) = RObj v e sz lm ct None.
+Proof. exact complete_read_your_write. Qed.
+Print Assumptions C01_complete_read_your_write.
+
+Theorem C01_complete_read_your_write_history : forall ops b k u m cr s' rs v e,
+  run (ops ++ [OCpl b k u m cr]) = (s', rs ++ [RPut v e]) ->
+  exists sz lm ct,
+  op_head s' b k None = RObj v e sz lm ct None /\ op_head s' b k (Some v) = RObj v e sz lm ct None.
+Proof. exact run_complete_read_your_write. Qed.
+Print Assumptions C01_complete_read_your_write_history.
+
+(* FRAME: an operation not addressed to (b,k) — any bucket operation, any read, any write/delete/multipart
+   call on another key, a copy to another destination — leaves the rows of (b,k) (in table order), hence what
+   lookups by key / version id / upload id find, and the part rows of those rows, unchanged *)
+Theorem C01_frame : forall i hist s o b k,
+  NoDup (map o_id (objs s)) -> (forall x, In x (objs s) -> (o_id x < next_id s)%N) ->
+  match o with
+  | OPut b' k' _ _ | ODel b' k' _ _ | OCmu b' k' | OUp b' k' _ _ _ | OCpl b' k' _ _ _ | OAbt b' k' _
+  | OApp b' k' _ _ => ~ (b' = b /\ k' = k)
+  | OCp _ _ _ db dk => ~ (db = b /\ dk = k)
+  | _ => True
+  end ->
+  filter (on_key b k) (objs (fst (step i hist s o))) = filter (on_key b k) (objs s) /\
+  find_latest (fst (step i hist s o)) b k = find_latest s b k /\
+  (forall v, find_version (fst (step i hist s o)) b k v = find_version s b k v) /\
+  (forall u, find_upload (fst (step i hist s o)) b k u = find_upload s b k u) /\
+  (forall x, In x (objs s) -> on_key b k x = true ->
+             obj_parts (fst (step i hist s o)) (o_id x) = obj_parts s (o_id x)).
+Proof. exact step_frame_full. Qed.
+Print Assumptions C01_frame.
+
+Theorem C01_frame_history : forall ops mid b k,
+  Forall (fun o => match o with
+    | OPut b' k' _ _ | ODel b' k' _ _ | OCmu b' k' | OUp b' k' _ _ _ | OCpl b' k' _ _ _ | OAbt b' k' _
+    | OApp b' k' _ _ => ~ (b' = b /\ k' = k)
+    | OCp _ _ _ db dk => ~ (db = b /\ dk = k)
+    | _ => True
+    end) mid ->
+  filter (on_key b k) (objs (fst (run (ops ++ mid)))) = filter (on_key b k) (objs (fst (run ops))) /\
+  find_latest (fst (run (ops ++ mid))) b k = find_latest (fst (run ops)) b k /\
+  (forall v, find_version (fst (run (ops ++ mid))) b k v = find_version (fst (run ops)) b k v) /\
+  (forall x, In x (objs (fst (run ops))) -> on_key b k x = true ->
+             obj_parts (fst (run (ops ++ mid))) (o_id x) = obj_parts (fst (run ops)) (o_id x)).
+Proof. exact run_frame_full. Qed.
+Print Assumptions C01_frame_history.
+
+(* the hypotheses are satisfiable: acknowledged put / copy / append on a non-trivial history *)
+Example C01_ex_put_ack : exists s',
+  run ([OMb wb; OVer wb VEnabled; OPut wb wk cA CRNone] ++ [OPut wb wk cB CRNone]) =
+  (s', [ROk; ROk; RPut (VId 2) (mk_md5 cA)] ++ [RPut (VId 3) (mk_md5 cB)]).
+Proof. eexists. vm_compute. reflexivity. Qed.
+Example C01_ex_copy_ack : exists s',
+  run ([OMb wb; OPut wb wk cA CRNone] ++ [OCp wb wk VRNone wb B"k2"]) =
+  (s', [ROk; RPut VNull (mk_md5 cA)] ++ [RPut VNull (mk_md5 cA)]).
+Proof. eexists. vm_compute. reflexivity. Qed.
+Example C01_ex_append_ack : exists s',
+  run ([OMb wb; OPut wb wk cA CRNone] ++ [OApp wb wk cB None]) =
+  (s', [ROk; RPut VNull (mk_md5 cA)] ++ [RAppend (mk_multi [cA; cB]) 16%Z]).
+Proof. eexists. vm_compute. reflexivity. Qed.
+Example C01_ex_complete_ack : exists s',
+  run ([OMb wb; OVer wb VEnabled; OCmu wb wk; OUp wb wk 2 1 cA; OUp wb wk 2 2 cB] ++ [OCpl wb wk 2 None CRNone]) =
+  (s', [ROk; ROk; RUpload 2; REtag (mk_md5 cA); REtag (mk_md5 cB)] ++ [RPut (VId 5) (mk_multi [cA; cB])]).
 Proof. eexists. vm_compute. reflexivity. Qed.
